@@ -411,7 +411,7 @@ _quick("C02", "C02_bigcancel", "exclusive holder + N in {3,150,300} queued reque
 _quick("C04", "C04_handover", "a key that is never idle: an exclusive hold handed over 20 times, 1 / 2 / alternately 1 and 2 new requests queued before every hand-over, in every third round none / the newest / the oldest queued request cancelled first; every hand-over grants exactly the oldest live queued request, nothing is left queued", ["-witness", "1"])
 
 _quick("C06", "C06_longrecycle", "every program of 6 events out of {new hold on a fresh key with E = 8 s, with E = 14 s (zero persistence delay: filed in the long-expiry table at once), release the oldest live hold, release the newest, 2 s pass}, then second by second until every deadline is 3 s past: buckets of the long-expiry table emptied by releases, recycled through the shard's free list and taken again for other deadlines; no hold ends before E, each unreleased one draws exactly one EXPRIED by E + 2 s, a released one none", ["-witness", "50"], reach=["end", "released"])
-_quick("C07", "C07_program", "every program of 5 operations persisted at once, from {LOCK key1 by L1 (re-entrant), LOCK key2 by L2, value-only LOCK on key1 (Expried 0 with SET), LOCK key1 by L3 (Count 1), UNLOCK L1, UNLOCK L2, UNLOCK L3}, then a restart: per key the same LockIds, depths and value (Lock objects pass through the shard's pool in every order)", ["-witness", "100"], reach=["end", "held"])
+_quick("C07", "C07_program", "every program of 5 operations persisted at once, from {LOCK key1 by L1 (re-entrant), LOCK key2 by L2, value-only LOCK on key1 (Expried 0 with SET), LOCK key1 by L3 (Count 1), UNLOCK L1 (all levels), UNLOCK L2, UNLOCK L3, UNLOCK of one level of L1, the same with the priority bit in its timeout flags}, then a restart: per key the same LockIds, depths and value (Lock objects pass through the shard's pool in every order)", ["-witness", "100"], reach=["end", "held"])
 
 _quick("C09", "C09_backpressure", "the follower's live-stream reader (real ReplicationClient.Process) over 700 records with its three pipeline stages scheduled by the harness: two stages keep up, the third (replay / append / re-publish) takes one record in hand after 0 / 100 / 250 records and stalls until its queue is full, then catches up; every stage sees every record once, in order, with the content it was sent with (a receive buffer is never refilled while a stage still holds it)", [], reach=["end", "stalled-full"], native=False)
 
